@@ -14,6 +14,7 @@
 -/
 import Pakhi.Lemmas.Assoc
 import Pakhi.Lemmas.FrameInv
+import Pakhi.Lemmas.Names
 namespace Pakhi
 namespace C04
 
@@ -106,6 +107,31 @@ theorem block_anywhere {prog : List Stmt} {α : Type} (h : Structured prog) (D :
     (hsuf : IsSuffixOf (b.flatten ++ k) prog) (hs : StOK (GoodFn prog) prog s) (hrun : D.run F (b.flatten ++ k) s = r) (hr : r ≠ .fuel) :
     Post D ctx k s F r (sBlock prog F b k s) :=
   block_refines h D b F k s ctx il r hw hc hctx hsuf hs hrun hr
+
+/-! ### Names (whole-body statements, `Lemmas/Names.lean`) -/
+
+
+/-- **names declared in a block are gone after it, and no other scope gained or lost a name**: however a block is left —
+    by running off its end, by `থামাও` or by `আবার` — every scope binds exactly the names it bound before the block
+    (`K s` lists, per scope, the names bound); this is the whole-body statement over arbitrary nested bodies, calls included -/
+theorem block_restores_names {prog : List Stmt} (h : Structured prog) (G : Nat) (b : SBlock) (k : List Stmt) (s s' : St) (sig : Sig)
+    (hw : b.WF) (hsuf : IsSuffixOf (b.flatten ++ k) prog) (hs : StOK (GoodFn prog) prog s)
+    (hrun : sBlock prog G b k s = .ok (sig, s')) (hsig : ∀ c, sig ≠ .ret c) : K s' = K s := by
+  have := (nBlock h G (fun g _ => namesInv_all h g g (Nat.le_refl _)) b k s hw hsuf hs sig s' hrun).2.2.2 hsig
+  have h2 : NE s s' := by simpa using this
+  exact h2
+
+/-- a statement that completes can only add names to the innermost scope: every other scope binds exactly the names it bound -/
+theorem statement_declares_only_in_innermost_scope {prog : List Stmt} (h : Structured prog) (G : Nat) (t : SStmt) (k : List Stmt)
+    (s s' : St) (sig : Sig) (hw : t.WF) (hsuf : IsSuffixOf (t.flatten ++ k) prog) (hs : StOK (GoodFn prog) prog s)
+    (hrun : sStmt prog G t k s = .ok (sig, s')) (hsig : ∀ c, sig ≠ .ret c) :
+    ∃ ext, K s' = grow ext (K s) := by
+  have := (nStmt h G (fun g _ => namesInv_all h g g (Nat.le_refl _)) t k s hw hsuf hs sig s' hrun).2.2.2 hsig
+  have h2 : NT s s' := by simpa using this
+  exact h2
+
+/-- non-vacuity of `grow`: only the head (innermost scope) changes -/
+example : grow ["x".toList] [["a".toList], ["g".toList]] = [["a".toList, "x".toList], ["g".toList]] := by decide
 
 end C04
 end Pakhi
